@@ -1,5 +1,5 @@
 """what MANIFEST.json claims, per property (kept next to the code that implements it)"""
-NOTES = ('Technique family: static analysis only. Every check recompiles /repo\'s working tree to LLVM IR (clang-14 -O0, then opt-14 sroa/mem2reg/instsimplify/early-cse/jump-threading/simplifycfg; functions the rules do not know by name are inlined first, '
+NOTES = ('Technique family: static analysis only. Every check recompiles /repo\'s working tree to LLVM IR (clang-14 -O0, then opt-14 sroa/mem2reg/instsimplify/early-cse/jump-threading/simplifycfg, member-wise splitting of local structs; functions the rules do not know by name are inlined first, '
          'the repo\'s own flags, all 22 compile commands of the four libraries) in a scratch directory and decides structural clauses '
          'of the property with repository-specific rules; exit 0 pass, 1 violation (VIOLATION line + report file), 2 analysis broken '
          '(anchor vanished / undecidable form / instance count below the confirmed minimum). Clauses that quantify over runtime values '
@@ -215,7 +215,23 @@ ADDED4 = {
  'C19': 'Fourth wave: R19c/R19f/R19g do not depend on helper names or signatures (the row combination is recognised by the call through gf_mul; bitmaps may be parameters).',
  'C20': 'Fourth wave: the loop that collects checksum-valid fragments visits all num_fragments entries (R20c) and its scratch list is sized from num_fragments (R20d).',
 }
-for _d in (ADDED, ADDED3, ADDED4):
+ADDED5 = {
+ 'C01': 'Fifth wave: header sizes of 0 (empty object) are accepted by prepare_fragments_for_decode (R01g); R14f shared.',
+ 'C03': 'Fifth wave: the caller\'s output buffer is written only by the final copy-out of fragment_len bytes, never handed to the coders (R03d).',
+ 'C04': 'Fifth wave: the generator has one construction for every shape: make_systematic_matrix returns what create_non_systematic_vand_matrix built (R04h).',
+ 'C06': 'Fifth wave: the Reed-Solomon planners are decided as value functions on a (3,2) shape over all pairs of short lists incl. overlapping / duplicated entries (R06m); '
+        'an XOR shortcut takes an equation whole only when no member is excluded (R06k).',
+ 'C08': 'Fifth wave: R08d is a value function - both size functions evaluated (constant propagation) for k in 1..12, w in {8,16,32} and every residue class of len.',
+ 'C09': 'Fifth wave: get_fragment_partition ends with an error when the index helper answers "not a fragment" (R09e); R01g shared.',
+ 'C12': 'Fifth wave: a compatibility predicate that is not the plain equality is decided by value: it accepts exactly the backend\'s own version (R12c).',
+ 'C13': 'Fifth wave: every use of the caller\'s fragments in decode / reconstruct (not only the named consumers) is dominated by fragment_len >= 80 (R13c); R01f shared.',
+ 'C14': 'Fifth wave: every global that register points at an instance is maintained by unregister (R14l); allocator and look-up decided against concrete registries '
+        '(descriptors 5 -> 11 -> 7) when the search is written out in place (R14a, R14i).',
+ 'C16': 'Fifth wave: the typestate resolves merged pointers per edge (a merge that received NULL along an edge does not denote the allocation on that path).',
+ 'C18': 'Fifth wave: nothing is written through xor_code_t.parity_bms / data_bms: the equation tables are shared by all instances of a shape (R18h).',
+ 'C19': 'Fifth wave: isa_l_min_fragments decided as a value function (R06m).',
+}
+for _d in (ADDED, ADDED3, ADDED4, ADDED5):
     for _k, _v in _d.items():
         CHECKS[_k]['text'] += ' ' + _v
 
